@@ -4,6 +4,7 @@ import (
 	"bytes"
 	"fmt"
 	"io"
+	"strings"
 
 	"github.com/tsenart/vegeta/v12/internal/simrt"
 	simcommon "github.com/tsenart/vegeta/v12/internal/zzsim/common"
@@ -204,7 +205,17 @@ func runDetect(t *simrt.Tape, keep bool) simrt.Outcome {
 			}
 			data = file.Data
 		}
-		rd := simrt.NewSimReader(t, data)
+		var rd io.Reader = simrt.NewSimReader(t, data)
+		if t.Prob(1, 6) {
+			// a seekable source that the caller has already read a part of (a header of its own, or the first lines
+			// of the file taken by another tool): the stream starts where the source stands, not at offset 0
+			prefix := []byte(strings.Repeat("# consumed by the caller\n", 1+t.Choose(3)))
+			br := bytes.NewReader(append(append([]byte(nil), prefix...), data...))
+			br.Seek(int64(len(prefix)), io.SeekStart)
+			rd = br
+			producer += ", behind a consumed prefix of a seekable source"
+			r.stats["probe.detect-on-seekable-source-past-its-start"]++
+		}
 		var dec vegeta.Decoder
 		r.guard("C08", "DecoderFor", func() { dec = vegeta.DecoderFor(rd) })
 		r.log.Addf("valid %s by %s n=%d bytes=%d", f, producer, n, len(data))
